@@ -425,6 +425,7 @@ SHARED_BY_DESIGN = {
     ("optimize.grid.GridBase.__init__", "self.points"): "the grid's one point array; GridBase.update writes it in place for cells and junctions",
     ("optimize.cell.CellBase.__init__", "self.grid_points"): "a cell reads the grid's point array",
     ("optimize.junction.Junction.__init__", "self.points"): "a junction reads the grid's point array",
+    ("modify.reorient.viewpoint.Triangle.__init__", "self.points"): "internal helper of the reorienter, built from arrays it creates itself (np.take of the hull's simplices); never handed a caller's array",
 }
 
 
